@@ -409,7 +409,8 @@ func (c *Ctx) Run(tier string) {
 	rep.Bound += "; one-warrior runs"
 	// presets
 	names := []string{"88", "icws", "nop94", "noptiny", "nop256", "nopnano"}
-	pairs := [][2]int{{0, 5}, {5, 2}, {3, 1}}
+	// imp vs imp runs to the preset's cycle limit (a tie); the ring fills the preset's process limit
+	pairs := [][2]int{{0, 5}, {5, 2}, {3, 1}, {0, 0}, {2, 0}, {9, 2}}
 	for _, n := range names {
 		for _, pr := range pairs {
 			if !c.mine() || c.expired() {
@@ -421,7 +422,7 @@ func (c *Ctx) Run(tier string) {
 			}
 		}
 	}
-	rep.Bound += "; each of the 6 presets with 3 pairs and 3 placements"
+	rep.Bound += "; each of the 6 presets with 6 pairs (incl. one that runs to the cycle limit and one that fills the process limit) and 3 placements"
 	// random placement with every answer forced
 	if c.BinRand == "" {
 		rep.Exhaustive = false
